@@ -1694,6 +1694,39 @@ class SymEval:
                     return self.emap(clip1, args[0])
                 if isinstance(args[0], (Rat, int, float)):
                     return clip1(args[0])
+        if q in ('numpy.nonzero', 'numpy.flatnonzero', 'numpy.argwhere') and len(args) == 1 and \
+                not kwargs and isinstance(args[0], SArray) and not args[0].sample:
+            # positions of the entries that are decidedly non-zero, in row-major order; an entry
+            # whose being zero is not decided (by its constant value or by the rule's comparison
+            # hook) ends the evaluation
+            arr = args[0]
+            keep = []
+            cmp_node = ast.Compare(left=ast.Constant(0), ops=[ast.NotEq()],
+                                   comparators=[ast.Constant(0)])
+            for i in arr.indices():
+                x = self.rat(arr.get(i))
+                if A.is_const(x):
+                    nz = A.const_of(x) != 0
+                else:
+                    nz = None
+                    if self.hooks is not None and hasattr(self.hooks, 'compare'):
+                        nz = self.hooks.compare(self, cmp_node, x, 0)
+                    if nz is None:
+                        raise Unsupported('np.nonzero of an entry whose being zero is undecided')
+                if nz:
+                    keep.append(i)
+            if q == 'numpy.argwhere':
+                return [list(i) for i in keep]
+            if q == 'numpy.flatnonzero':
+                strides = []
+                for i in keep:
+                    f_, m_ = 0, 1
+                    for d_, k_ in zip(reversed(arr.shape), reversed(i)):
+                        f_ += k_ * m_
+                        m_ *= d_
+                    strides.append(f_)
+                return strides
+            return tuple([i[ax] for i in keep] for ax in range(len(arr.shape)))
         if q == 'numpy.resize' and len(args) == 2 and not kwargs and \
                 isinstance(args[0], (Rat, int, float)) and not isinstance(args[0], bool):
             shp = args[1] if isinstance(args[1], (tuple, list)) else (args[1],)
